@@ -8,8 +8,11 @@ spec/Checksum.tla.
     random payloads; the harness only supplies sha256d values (harness/ref.py).  Damaged strings are derived from them
     (all single-character substitutions / insertions / deletions / transpositions, random multi-character damage,
     case changes, truncated / padded forms, and re-checksummed invalid forms).
-(V) every string goes through every import path of bitcoinlib; TLC (ChecksumEval) judges each observation: acceptance,
-    payload, version / network, key flags, BIP32 fields and the re-encoded string.
+(V) every string goes through every import path of bitcoinlib - the address decoders with default arguments AND with each
+    explicit optional argument (encoding='base58'/'bech32', as_hex=True, prefix=, network=) and addr_convert; TLC
+    (ChecksumEval) judges each observation: acceptance, payload, version / network, key flags, BIP32 fields, the
+    re-encoded / converted string.  'Accepted' means: the call came back without raising - a None / empty return value
+    for an invalid string is a disagreement of its own clause (returned-nothing-without-raising-...).
 """
 import os
 
@@ -23,6 +26,15 @@ B58_EXTRA = ['0', 'O', 'I', 'l', ' ', '\xe9']
 B32_EXTRA = ['b', 'i', 'o', '1', ' ', 'Q']
 
 ADDR_PATHS = ['a2p', 'ab58', 'ab32', 'deser', 'parse', 'output']
+# the same functions with each explicit optional argument, and addr_convert; every address string takes the default
+# paths plus one of these groups in rotation (valid, re-checksummed, case-changed, truncated/padded strings take all)
+ADDR_OPT_PATHS = [['a2p_b58', 'a2p_b32', 'a2p_hex', 'conv', 'conv_b58'],
+                  ['deser_b58', 'deser_b32', 'deser_net', 'ab58_hex', 'ab32_hex', 'conv_b32'],
+                  ['parse_b58', 'parse_b32', 'parse_net', 'ab32_pfx']]
+HRP_NET = {'bc': 'bitcoin', 'tb': 'testnet', 'bcrt': 'regtest', 'ltc': 'litecoin', 'tltc': 'litecoin_testnet',
+           'blt': 'bitcoinlib_test'}
+VER_NET = {0: 'bitcoin', 5: 'bitcoin', 111: 'testnet', 196: 'testnet', 48: 'litecoin', 50: 'litecoin', 58: 'litecoin_testnet',
+           30: 'dogecoin', 22: 'dogecoin', 113: 'dogecoin_testnet', 144: 'bitcoinlib_test', 149: 'bitcoinlib_test'}
 KEY_PATHS = ['key', 'keyfw', 'hdkey', 'hdfw']
 
 # published BIP38 vectors (non-EC-multiplied): string, passphrase, private key, compressed
@@ -52,7 +64,8 @@ def uncodes(l):
 
 def _blank(p):
     return {'p': p, 'acc': False, 'pay': [], 'hasver': False, 'ver': [], 'haswv': False, 'wv': -1, 'hasnet': False,
-            'net': '', 'iskey': False, 'priv': False, 'comp': 0, 'hashd': False, 'hd': [], 'rok': False, 're': []}
+            'net': '', 'iskey': False, 'priv': False, 'comp': 0, 'hashd': False, 'hd': [], 'rok': False, 're': [],
+            'nul': False, 'argp': [], 'argn': '', 'rd': {'ok': False, 'b': []}}
 
 
 def _ver(x):
@@ -83,43 +96,89 @@ def _key_proj(o, k, hd):
         o['re'] = codes(k.wif())
 
 
-def observe_one(s, p, pw=None, widx=0):
-    """Hand string s to import path p.  An exception of any type means 'refused'."""
+def _empty(r):
+    """The call came back without raising, but with nothing: None, False, '' , b'', {} ..."""
+    return r is None or r is False or (hasattr(r, '__len__') and len(r) == 0)
+
+
+def _addr_call(o, s, p, arg):
+    """Address import paths: <function>[_<explicit optional argument>] (see PB58/PB32 in ChecksumEval.tla)."""
+    from bitcoinlib import encoding as E
+    from bitcoinlib import keys as K
+    base, _, opt = p.partition('_')
+    kw = {}
+    if opt == 'b58':
+        kw['encoding'] = 'base58'
+    elif opt == 'b32':
+        kw['encoding'] = 'bech32'
+    elif opt == 'hex':
+        kw['as_hex'] = True
+    elif opt == 'pfx':
+        kw['prefix'] = arg['hrp']
+        o['argp'] = codes(arg['hrp'])
+    elif opt == 'net':
+        kw['network'] = arg['net']
+        o['argn'] = arg['net']
+    elif opt:
+        raise common.MachineryError('unknown option of path ' + p)
+    if base in ('a2p', 'ab58', 'ab32'):
+        f = {'a2p': E.addr_to_pubkeyhash, 'ab58': E.addr_base58_to_pubkeyhash, 'ab32': E.addr_bech32_to_pubkeyhash}[base]
+        r = f(s, **kw)
+        if _empty(r):
+            o['nul'] = True
+            return
+        o['pay'] = list(bytes.fromhex(r) if opt == 'hex' else r)
+        if p == 'ab32':
+            w = E.addr_bech32_to_pubkeyhash(s, include_witver=True)
+            o['haswv'] = True
+            o['wv'] = w[0] - 0x50 if w[0] else 0
+    elif base == 'deser':
+        d = K.deserialize_address(s, **kw)
+        if _empty(d):
+            o['nul'] = True
+            return
+        o['pay'] = list(d['public_key_hash_bytes'])
+        o['hasver'] = True
+        o['ver'] = _ver(d['prefix'])
+        o['hasnet'] = True
+        o['net'] = d['network'] or ''
+        if d['witver'] is not None:
+            o['haswv'] = True
+            o['wv'] = d['witver']
+    elif base == 'parse':
+        a = K.Address.parse(s, **kw)
+        if _empty(a):
+            o['nul'] = True
+            return
+        o['pay'] = list(a.hash_bytes)
+        o['hasver'] = True
+        o['ver'] = _ver(a.prefix)
+        o['hasnet'] = True
+        o['net'] = a.network.name
+        o['rok'] = True
+        o['re'] = codes(a.address)
+    elif base == 'conv':
+        # convert to the same encoding under another version byte (testnet P2PKH) / human readable part (tb)
+        to58 = opt == 'b58' or (opt == '' and not arg['is32'])
+        o['argp'] = [0x6f] if to58 else codes('tb')
+        r = K.addr_convert(s, '6f' if to58 else 'tb', **kw)
+        if _empty(r):
+            o['nul'] = True
+            return
+        o['re'] = codes(r)          # judged through its decoding (filled in as o['rd'] after TLC's pass 1)
+    else:
+        raise common.MachineryError('unknown path ' + p)
+
+
+def observe_one(s, p, pw=None, widx=0, arg=None):
+    """Hand string s to import path p.  An exception of any type means 'refused'; coming back without an exception
+    means 'accepted' - with o['nul'] set when what came back is None / empty."""
     from bitcoinlib import encoding as E
     from bitcoinlib import keys as K
     o = _blank(p)
     try:
-        if p == 'a2p':
-            r = E.addr_to_pubkeyhash(s)
-            if r is None:
-                return o
-            o['pay'] = list(r)
-        elif p == 'ab58':
-            o['pay'] = list(E.addr_base58_to_pubkeyhash(s))
-        elif p == 'ab32':
-            o['pay'] = list(E.addr_bech32_to_pubkeyhash(s))
-            w = E.addr_bech32_to_pubkeyhash(s, include_witver=True)
-            o['haswv'] = True
-            o['wv'] = w[0] - 0x50 if w[0] else 0
-        elif p == 'deser':
-            d = K.deserialize_address(s)
-            o['pay'] = list(d['public_key_hash_bytes'])
-            o['hasver'] = True
-            o['ver'] = _ver(d['prefix'])
-            o['hasnet'] = True
-            o['net'] = d['network'] or ''
-            if d['witver'] is not None:
-                o['haswv'] = True
-                o['wv'] = d['witver']
-        elif p == 'parse':
-            a = K.Address.parse(s)
-            o['pay'] = list(a.hash_bytes)
-            o['hasver'] = True
-            o['ver'] = _ver(a.prefix)
-            o['hasnet'] = True
-            o['net'] = a.network.name
-            o['rok'] = True
-            o['re'] = codes(a.address)
+        if p.split('_')[0] in ('a2p', 'ab58', 'ab32', 'deser', 'parse', 'conv'):
+            _addr_call(o, s, p, arg or {'hrp': 'bc', 'net': 'bitcoin', 'is32': False})
         elif p == 'output':
             from bitcoinlib.transactions import Output
             t = Output(1000, address=s)
@@ -156,15 +215,17 @@ def observe_one(s, p, pw=None, widx=0):
     except BaseException as e:          # noqa - any exception is a refusal
         if isinstance(e, (KeyboardInterrupt, SystemExit, MemoryError)):
             raise
-        return _blank(p)
+        o2 = _blank(p)
+        o2['argp'], o2['argn'] = o['argp'], o['argn']
+        return o2
     o['acc'] = True
     return o
 
 
 def _observe_chunk(job):
     out = []
-    for i, (s, paths, pw) in enumerate(job):
-        out.append([observe_one(s, p, pw, i) for p in paths])
+    for i, (s, paths, pw, arg) in enumerate(job):
+        out.append([observe_one(s, p, pw, i, arg) for p in paths])
     return out
 
 
@@ -242,7 +303,8 @@ def run(replay=None):
     ck = Check(PID)
     rng = ck.rng
     thorough = tier() == 'thorough'
-    ck.rule = ('a case = (string, import path); class = (kind of seed string, damage operator, import path, outcome '
+    ck.rule = ('a case = (string, import path incl. its explicit optional argument); class = (kind of seed string, damage '
+               'operator, import path, outcome '
                'of the specification). Seed strings are encoded by TLC from random payloads for every version / network; '
                'damage = every single-character substitution/insertion/deletion/transposition (all alternatives for the '
                'exhaustive seeds, sampled alternatives at every position for the others), multi-character damage, case '
@@ -250,7 +312,10 @@ def run(replay=None):
     ck.assumptions = ['TLC evaluates Checksum.tla correctly', 'sha256d is supplied by harness/ref.py (hashlib)',
                       'BIP38: decryption is not specified here; the key of a BIP38 string is the published vector and a '
                       'damaged BIP38 payload is assumed to fail the 32-bit address-hash test',
-                      'an exception of any type (or a None result) counts as refusal']
+                      'an exception of any type counts as refusal; returning None / an empty value without raising counts as '
+                      'acceptance with an empty payload',
+                      'prefix= / network= argument values are those of the seed string, every fourth time those of another '
+                      'network; mutants take the default-argument paths plus one of three groups of optional-argument paths']
 
     # ---------------- (M)
     ck.model(common.model_check('MC_Checksum', 'MC_Checksum_thorough.cfg' if thorough else 'MC_Checksum.cfg',
@@ -265,13 +330,31 @@ def run(replay=None):
 
     items = []      # dict(fam, s, paths, pw, seed, op, kind, sd/okey/ocomp)
 
-    def add(fam, kind, op, s, paths=None, pw=None, b38=None):
-        items.append({'fam': fam, 'kind': kind, 'op': op, 's': s, 'paths': paths or (ADDR_PATHS if fam == 'addr' else KEY_PATHS),
-                      'pw': pw, 'b38': b38})
+    def addr_arg(kind, n):
+        """Values for the prefix= / network= arguments (inputs, not oracle: the specification judges whether they fit):
+        those of the seed string, every fourth time those of another network."""
+        t = kind.split('-')
+        hrp, net = 'bc', 'bitcoin'
+        if t[0] == 'seg' and t[1] in HRP_NET:
+            hrp, net = t[1], HRP_NET[t[1]]
+        elif t[0] == 'b58addr' and t[1][:1] == 'v' and t[1][1:].isdigit():
+            net = VER_NET.get(int(t[1][1:]), 'bitcoin')
+        if n % 4 == 3:
+            hrp = 'tb' if hrp != 'tb' else 'bc'
+            net = 'litecoin' if net != 'litecoin' else 'bitcoin'
+        return {'hrp': hrp, 'net': net, 'is32': t[0] == 'seg'}
+
+    def add(fam, kind, op, s, paths=None, pw=None, b38=None, arg=None):
+        if paths is None and fam == 'addr':
+            n = len(items)
+            some = op in ('subst', 'insert', 'delete', 'swap', 'multi-subst', 'burst', 'del+ins', 'swap-far')
+            paths = ADDR_PATHS + (ADDR_OPT_PATHS[n % 3] if some else sum(ADDR_OPT_PATHS, []))
+            arg = addr_arg(kind, n)
+        items.append({'fam': fam, 'kind': kind, 'op': op, 's': s, 'paths': paths or KEY_PATHS, 'pw': pw, 'b38': b38, 'arg': arg})
 
     if replay:
         c = replay['case']
-        add(c['fam'], c['kind'], c['op'], c['s'], c['paths'], c.get('pw'), c.get('b38'))
+        add(c['fam'], c['kind'], c['op'], c['s'], c['paths'], c.get('pw'), c.get('b38'), c.get('arg'))
     else:
         # ---------------- seeds, built by the specification (G)
         gen = []    # (tag, record)
@@ -449,7 +532,7 @@ def run(replay=None):
     import time
     t0 = time.time()
     # ---------------- observe the implementation (every string through every path of its family)
-    jobs = [(it['s'], it['paths'], it['pw']) for it in items]
+    jobs = [(it['s'], it['paths'], it['pw'], it['arg']) for it in items]
     order = sorted(range(len(jobs)), key=lambda i: (-(10 if jobs[i][2] else 1), i))     # expensive (scrypt) first
     nchunk = 64
     chunks = [[] for _ in range(nchunk)]
@@ -465,7 +548,9 @@ def run(replay=None):
     ck.notes['t_observe_s'] = round(time.time() - t0, 1)
     t0 = time.time()
     # ---------------- pass 1 (TLC): decode, name the byte strings to be hashed
-    strings = sorted({it['s'] for it in items} | {it['b38']['seed'] for it in items if it['b38']})
+    # (also the addresses addr_convert returned: they are judged through their decoding)
+    strings = sorted({it['s'] for it in items} | {it['b38']['seed'] for it in items if it['b38']} |
+                     {uncodes(o['re']) for ob in obs for o in ob if o['p'].startswith('conv') and o['re']})
     dec = dict(zip(strings, common.tlc_eval('ChecksumEval', [{'k': 'dec', 's': codes(s)} for s in strings], procs=12)))
     ck.notes['t_tlc_decode_s'] = round(time.time() - t0, 1)
     t0 = time.time()
@@ -473,7 +558,15 @@ def run(replay=None):
     recs = []
     for it, ob in zip(items, obs):
         d = dec[it['s']]['exp']
-        hs = [{'m': m, 'h': list(h4(m))} for m in d['ms']]
+        ms = list(d['ms'])
+        for o in ob:
+            if o['p'].startswith('conv'):
+                ms.append(o['argp'])                     # the hash of an empty-hash payload (named deviation)
+                if o['re']:
+                    dr = dec[uncodes(o['re'])]['exp']
+                    o['rd'] = dr['d']
+                    ms += dr['ms']
+        hs = [{'m': m, 'h': list(h4(m))} for m in {tuple(m): m for m in ms}.values()]
         r = {'k': 'j', 'fam': it['fam'], 's': codes(it['s']), 'd': d['d'], 'f': d['f'], 'hasf': d['hasf'], 'hs': hs,
              'sd': [], 'okey': [], 'ocomp': 0, 'obs': ob}
         if it['b38']:
@@ -489,7 +582,7 @@ def run(replay=None):
         if v['v'] == 'machinery-missing-hash':
             raise common.MachineryError('oracle fact missing for %r' % it['s'])
         case = {'fam': it['fam'], 'kind': it['kind'], 'op': it['op'], 's': it['s'], 'paths': it['paths'], 'pw': it['pw'],
-                'b38': it['b38']}
+                'b38': it['b38'], 'arg': it['arg']}
         for o, pv in zip(r['obs'], v['exp']):
             exp = pv['exp']
             ck.case((it['kind'].split('-')[0], it['op'], o['p'], exp['acc'], exp['why'] if not exp['acc'] else ''))
@@ -498,8 +591,11 @@ def run(replay=None):
                 devs = [x for x in pv['dev'].split('+') if x]
                 text = '%s(%r) [%s of %s]: clause %s; implementation %s, specification %s' % (
                     o['p'], it['s'], it['op'], it['kind'], pv['v'],
-                    ('accepts payload ' + bytes(o['pay']).hex() + (' re-encoded ' + repr(uncodes(o['re'])) if o['rok'] else '')
-                     + (' net ' + o['net'] if o['hasnet'] else '')) if o['acc'] else 'refuses',
+                    'returns None/empty without raising' if o['nul'] else
+                    ('accepts payload ' + bytes(o['pay']).hex() + (' returns ' + repr(uncodes(o['re'])) if o['re'] else '')
+                     + (' net ' + o['net'] if o['hasnet'] else '')
+                     + (' [argument %s]' % (o['argn'] or bytes(o['argp'])) if o['argn'] or o['argp'] else ''))
+                    if o['acc'] else 'refuses',
                     ('accepts payload ' + bytes(exp['pay']).hex()) if exp['acc'] else 'rejects (' + exp['why'] + ')')
                 c1 = dict(case, paths=[o['p']])
                 if devs and all(x in ck.known for x in devs):
